@@ -63,9 +63,10 @@ Qed.
 Theorem dec_kind_enc : forall env fo pmi k v,
   has_kind k v = true ->
   (forall b, fparse fo (ffmt fo b) = Some b) ->
+  (forall b, dec64_lexb (ffmt fo b) = true) ->
   forall j, enc_scalar env fo pmi v = Ok j -> dec_kind fo k j = Ok v.
 Proof.
-  intros env fo pmi k v Hk Hf j He.
+  intros env fo pmi k v Hk Hf Hl j He.
   destruct k as [ik| | | | |]; destruct v; simpl in Hk; try discriminate; simpl in He.
   - (* integers *)
     apply andb_true_iff in Hk as [Hk H3]. apply andb_true_iff in Hk as [H1 H2].
@@ -77,7 +78,7 @@ Proof.
         rewrite parse_uint_range_roundtrip by lia. reflexivity.
     + rewrite jnum_trunc_0, jnum_int_0.
       apply Z.ltb_ge in H2. apply Z.ltb_ge in H3. now rewrite H2, H3.
-  - injection He as <-. simpl. now rewrite Hf.
+  - injection He as <-. simpl. now rewrite Hf, Hl.
   - injection He as <-. reflexivity.
   - injection He as <-. simpl. now rewrite b64dec_b64enc.
   - injection He as <-. reflexivity.
@@ -88,9 +89,10 @@ Qed.
 Corollary dec_json_enc_simple : forall env fo pmi t k v,
   kind_of_type t = Some k -> has_kind k v = true ->
   (forall b, fparse fo (ffmt fo b) = Some b) ->
+  (forall b, dec64_lexb (ffmt fo b) = true) ->
   forall j, enc_scalar env fo pmi v = Ok j -> dec_json env fo t j = Ok v.
 Proof.
-  intros env fo pmi t k v Ht Hk Hf j He.
+  intros env fo pmi t k v Ht Hk Hf Hl j He.
   destruct t; simpl in Ht; try discriminate; injection Ht as <-;
     cbn [dec_json kind_of_type]; eapply dec_kind_enc; eauto.
 Qed.
@@ -144,6 +146,7 @@ Proof.
         apply parse_uint_range_bounds in Ep. apply has_kind_int. exists z. split; [reflexivity|].
         rewrite (ikind_min_nonpos_unsigned ik Es). exact Ep.
   - destruct j; try discriminate H. simpl in H. destruct (fparse fo s); [|discriminate].
+    destruct (dec64_lexb s); [|discriminate].
     injection H as <-. reflexivity.
   - destruct j; try discriminate H. injection H as <-. reflexivity.
   - destruct j; try discriminate H. simpl in H. destruct (b64dec s) as [bs|] eqn:Eb; [|discriminate].
